@@ -136,7 +136,7 @@ PROPS['C16'] = dict(
 PROPS['C08'] = dict(
     bounded_quick=[('cursor', 'Node::split / spill / write / free_page, InnerBucket::merge_nodes / rebalance / spill (Rc<RefCell<Node>> graph, float thresholds), Page::write_node / Node::from_page beyond the bounded Kani codec')],
     level='proof',
-    units=['range', 'cursor', 'pagenode', 'filters'],
+    units=['range', 'cursor', 'pagenode', 'filters', 'bytes'],
     explanation='Ranges: Range::next is verified on its real body for a generic R: RangeBounds<&[u8]> (all nine combinations of included / excluded / unbounded) against the '
                 'documented Cursor semantics: everything yielded lies within both bounds and is the entry at the cursor; on the first call no entry that satisfies both bounds is '
                 'skipped; later calls advance by exactly one entry and yield None only at the end or beyond the upper bound; the cursor stays well-formed. '
@@ -196,7 +196,7 @@ PROPS['C05'] = dict(
 PROPS['C01'] = dict(
     bounded_quick=[('history', 'Node::split / spill / write / free_page, InnerBucket::merge_nodes / rebalance / spill (Rc<RefCell<Node>> graph, float thresholds), Page::write_node / Node::from_page beyond the bounded Kani codec'), ('cursor', 'Node::split / spill / write / free_page, InnerBucket::merge_nodes / rebalance / spill (Rc<RefCell<Node>> graph, float thresholds), Page::write_node / Node::from_page beyond the bounded Kani codec')],
     level='other',
-    units=['pagenode', 'cursor', 'range', 'guards', 'bucketops'],
+    units=['pagenode', 'cursor', 'range', 'guards', 'bucketops', 'bytes'],
     kani_quick=['layout'],
     kani_thorough=['codec'],
     explanation='Leaf operations against the mathematical ordered map, for all sizes: Node::insert_data is map insert on a strictly ascending entry sequence (replace on equal key, insert at the sorted position otherwise, '
